@@ -142,13 +142,12 @@ fn one_run(prop: &str, seed: u64, run: u64, findings: &known::Findings, stats: &
         diff_pool,
         diff_ns,
         diff_each,
+        gates: findings.active.iter().filter(|a| world::GATED_CLAUSES.contains(&a.as_str())).cloned().collect(),
         steps: vec![],
         expect: None,
     };
     let mut res = RunResult::default();
-    let mut cfg = h.cfg();
-    cfg.gates = findings.active.iter().filter(|a| world::GATED_CLAUSES.contains(&a.as_str())).cloned().collect();
-    let mut w = match world::World::setup(&docs, cfg) {
+    let mut w = match world::World::setup(&docs, h.cfg()) {
         Ok(w) => w,
         Err(e) => {
             res.setup_error = Some(e);
